@@ -419,6 +419,12 @@ func (e *env) run(in *injector) *common.Failure {
 	if f := reopen(len(e.c.Ops)); f != nil {
 		return f
 	}
+	// and once more: the first Open after a fault may itself repair things (complete a rotation,
+	// recreate a tail) whose result is only read back through the on-disk index by the next Open
+	if f := reopen(len(e.c.Ops) + 1); f != nil {
+		f.Sig = "second-reopen/" + f.Sig
+		return f
+	}
 	for k, want := range e.stable {
 		got, err := e.w.Get([]byte(k))
 		if err != nil || string(got) != string(want) {
